@@ -24,7 +24,8 @@ PROP = 'C20'
 
 # (module, global) -> set of function qualnames allowed to write it at run time, with the reason
 ALLOWED_WRITERS = {
-    ('fst_core', '_MODIFYING'): ({'_Modifying.enter', '_Modifying.success', '_Modifying.fail'},
+    # (the context manager may be split into a version-independent base class and per-version subclasses: `_Modifying*`)
+    ('fst_core', '_MODIFYING'): ({'re:_Modifying\\w*\\.(enter|success|fail)'},
                                  'modification registry: written only by the context manager protocol'),
     ('fst_options', '_OPTIONS'): ({'set_options', 'options', '_ThreadOptions.__init__'},
                                   'per-thread option defaults: written only by set_options() and the options() restore'),
@@ -54,6 +55,10 @@ def run(ctx):
             if isinstance(c, ast.Call) and call_name(c):
                 callers_of.setdefault(call_name(c), set()).add((cfi.module, cfi.qualname))
 
+    def is_allowed(q, allowed):
+        import re as _re
+        return q in allowed or any(a.startswith('re:') and _re.fullmatch(a[3:], q) for a in allowed)
+
     def only_for(fi, g, allowed, depth=0):
         """A private helper that exists only to serve the allowed writers of `g`: every function that calls it by name is an allowed
         writer (same module) or such a helper itself — the allow-list is closed under extracting a helper from its members."""
@@ -63,7 +68,7 @@ def run(ctx):
         if not cs:
             return False
         for (cm_, cq) in cs:
-            if cm_ == g[0] and cq in allowed:
+            if cm_ == g[0] and is_allowed(cq, allowed):
                 continue
             cfis = repo.mod(cm_).func(cq)
             if not cfis or not only_for(cfis[0], g, allowed, depth + 1):
@@ -72,7 +77,7 @@ def run(ctx):
     for g, fi, node, kind in writers(repo, mg):
         n_w += 1
         allowed, reason = ALLOWED_WRITERS.get(g, (set(), ''))
-        ctx.check('R20.1', fi.qualname in allowed or (bool(allowed) and fi.module == g[0] and only_for(fi, g, allowed)), fi.module, fi.qualname, f'{kind} on {g[0]}.{g[1]}: {norm(node, 80)}',
+        ctx.check('R20.1', is_allowed(fi.qualname, allowed) or (bool(allowed) and fi.module == g[0] and only_for(fi, g, allowed)), fi.module, fi.qualname, f'{kind} on {g[0]}.{g[1]}: {norm(node, 80)}',
                   f'{fi.module}.{fi.qualname} writes process-global {g[0]}.{g[1]} at run time ({kind}); allowed writers are '
                   f'{sorted(allowed) or "none (read-only table)"}: state would leak between calls / threads / trees',
                   node.lineno, sample={'global': f'{g[0]}.{g[1]}', 'writer': fi.key, 'kind': kind})
@@ -210,11 +215,20 @@ def run(ctx):
     # ---- R20.8 -------------------------------------------------------------------------------------------------------
     ctx.rule('R20.8', 'every access to _MODIFYING is keyed by a variable bound from `.root` in the same method (or by the parameter of a helper that every call site hands a root)', 4)
     cm = repo.mod('fst_core')
+    # `self.root` is a root when the manager classes bind it from `<node>.root` (possibly in another method than the one that uses it)
+    class_root_attrs = set()
+    for q, fis in cm.funcs.items():
+        if not q.startswith('_Modifying'):
+            continue
+        for fi in fis:
+            for n in walk_no_nested(fi.node):
+                if isinstance(n, ast.Assign) and isinstance(n.value, ast.Attribute) and n.value.attr == 'root':
+                    class_root_attrs |= {norm(t) for t in n.targets if isinstance(t, ast.Attribute) and norm(t.value) == 'self'}
     for q, fis in cm.funcs.items():
         for fi in fis:
             if isinstance(fi.node, ast.Lambda):
                 continue
-            roots = set()
+            roots = set(class_root_attrs)
             for n in walk_no_nested(fi.node):
                 if isinstance(n, ast.Assign):
                     if isinstance(n.value, ast.Attribute) and n.value.attr == 'root':
